@@ -80,6 +80,11 @@ impl Prechecker for DefaultPrechecker {
                 None
             }
             PrecheckData::NotCheck { pinned_or_king } => {
+                if mv.kind() == MoveKind::Enpassant {
+                    // Enpassant removes two pawns from the same rank at once, so the king may
+                    // become attacked even if the capturing pawn is not pinned.
+                    return None;
+                }
                 if !pinned_or_king.has(mv.src()) {
                     // The piece is not pinned and is not a king, so the move is definitely legal.
                     Some(true)
